@@ -248,13 +248,15 @@ class EventDispatcher(metaclass=abc.ABCMeta):
             if not self.stopped:
                 raise
         finally:
-            # Cancel any pending task in the event pool.
-            self._handlers_task_pool.cancel()
-            await self._handlers_task_pool.wait()
-            # No more cancelation at this point.
-            self._active_tasks = None
-            # Finalize producers.
-            await gather_no_raise(*[producer.finalize() for producer in self._producers])
+            try:
+                # Cancel any pending task in the event pool.
+                self._handlers_task_pool.cancel()
+                await self._handlers_task_pool.wait()
+            finally:
+                # No more cancelation at this point.
+                self._active_tasks = None
+                # Finalize producers, even if we got cancelled while waiting for the handlers to finish.
+                await gather_no_raise(*[producer.finalize() for producer in self._producers])
 
     def on_error(self, error: Any):
         logger.error(error)
